@@ -177,6 +177,7 @@ inline uint64_t run_ctor_env(const std::vector<CtorOp>& ops, size_t lo, size_t h
                              bool check_csr = false) {
   static const int POI[3] = {0x00, 0xFF, 0xA5};
   static const int RES[3] = {0, 32, 48};  // address of malloc blocks modulo 64 (malloc only promises a multiple of 16)
+  static const int PFR[3] = {-1, 0xDD, 0x00};  // content of a block from the moment it is freed (left alone / 0xDD / 0x00): an object that is used after a sibling was deleted must not notice
   uint64_t* sh = (uint64_t*)mmap(0, 4096, PROT_READ | PROT_WRITE, MAP_SHARED | MAP_ANONYMOUS, -1, 0);
   if (sh == MAP_FAILED) machinery_error("mmap");
   uint64_t runs = 0;
@@ -192,6 +193,7 @@ inline uint64_t run_ctor_env(const std::vector<CtorOp>& ops, size_t lo, size_t h
       if (p < 0) machinery_error("fork");
       if (p == 0) {
         alloc_track().poison = POI[e]; alloc_track().residue = RES[e];
+        if (PFR[e] >= 0) { alloc_track().reset(); alloc_track().on = 1; alloc_track().poison_free = PFR[e]; }
         unsigned c0 = __builtin_ia32_stmxcsr() & 0xFFC0u;
         sh[e] = ops[k].run();
         unsigned c1 = __builtin_ia32_stmxcsr() & 0xFFC0u;
@@ -201,7 +203,7 @@ inline uint64_t run_ctor_env(const std::vector<CtorOp>& ops, size_t lo, size_t h
       ++runs;
       if (check_csr && WIFEXITED(st) && WEXITSTATUS(st) == 0 && sh[3 + e] && sh[6] != sh[7]) { report(id, sfmt("creating / using / deleting the object leaves the floating-point control register of the calling thread changed (MXCSR control bits 0x%x -> 0x%x): every later floating-point result of that thread depends on it", (unsigned)sh[6], (unsigned)sh[7])); bad = true; break; }
       if (!WIFEXITED(st) || WEXITSTATUS(st) != 0 || !sh[3 + e]) { report(id, sfmt("creating / using / deleting the object crashes (or is stopped by the sanitizer) when freshly allocated memory is filled with 0x%02x and malloc blocks start at %d modulo 64", POI[e], RES[e])); bad = true; }
-      else if (e > 0 && sh[e] != sh[0]) { report(id, sfmt("the results differ between freshly allocated memory filled with 0x00 (blocks at 0 mod 64) and with 0x%02x (blocks at %d mod 64): the constructor (or the use) depends on uninitialised heap memory or on the alignment malloc happens to return", POI[e], RES[e])); bad = true; }
+      else if (e > 0 && sh[e] != sh[0]) { report(id, sfmt("the results differ between freshly allocated memory filled with 0x00 (blocks at 0 mod 64) and with 0x%02x (blocks at %d mod 64): the constructor (or the use) depends on uninitialised heap memory, on the alignment malloc happens to return, or on the content of memory that has already been freed", POI[e], RES[e])); bad = true; }
     }
     visit(id, false);
   }
